@@ -26,6 +26,7 @@ def run(ctx) -> None:
     ctx.guard("C10.int-map", int_map)
     ctx.guard("C10.aggregate", aggregate_records)
     ctx.guard("C10.aggregate", aggregate_evo)
+    ctx.guard("C10.aggregate", evo_member_conversion)
     ctx.guard("C10.any", any_rules)
     ctx.guard("C10.slots", slots)
     from . import c07
@@ -335,6 +336,9 @@ def _mask_fold(ctx, fv, f, name: str, at: int, depth: int = 0) -> Tuple[str, Opt
             v = n.ast.value
             if isinstance(v, ast.Constant) and (v.value == 0 or v.value is None):
                 continue
+            if isinstance(v, ast.Constant) and isinstance(v.value, (int, float)) and not isinstance(v.value, bool):
+                kinds.append("bad-init")
+                continue
             if isinstance(v, ast.Name) and depth < 4:
                 k, sq = _mask_fold(ctx, fv, f, v.id, d, depth + 1)
                 seq = sq if sq is not None else seq
@@ -351,6 +355,8 @@ def _mask_fold(ctx, fv, f, name: str, at: int, depth: int = 0) -> Tuple[str, Opt
             kinds.append("unknown")
     if not kinds:
         return "unknown", seq
+    if "bad-init" in kinds:
+        return "bad-init", seq
     if all(k in ("or", "sum-set") for k in kinds):
         return "or", seq
     if "sum" in kinds:
@@ -407,6 +413,37 @@ def _has_strict_order_guard(ctx, validator, seq_param: str) -> bool:
     return False
 
 
+def evo_member_conversion(ctx) -> None:
+    """EVO validator: numbers 1-8 are converted with int_to_tip, Tip members are taken as they are (a Tip member is an int
+    too - converting it again turns Tip.T3 = 4 into tip 4)."""
+    rule = "C10.aggregate"
+    v = ctx.prog.require_func("prepare_evo_aspirate_dispense_parameters", rule)
+    fv = ctx.fv(v)
+    rets = [fv.def_expr(n.ast.value, n.id)[0] for n in fv.return_nodes()]
+    rets = [r for r in rets if isinstance(r, ast.Tuple) and len(r.elts) == 5]
+    tips_var = getattr(rets[0].elts[4], "id", None) if rets else None
+    apps = [cs for cs in fv.calls() if isinstance(cs.call.func, ast.Attribute) and cs.call.func.attr == "append" and is_name(cs.call.func.value, tips_var) and len(cs.call.args) == 1]
+    if tips_var is None or len(apps) != 1:
+        ctx.rep.inconclusive(rule, f"{v.qualname}/member-conversion", "conversion loop of the tips not found", where=v.where())
+        return
+    cs = apps[0]
+    n_conv = 0
+    for conds, val in fv.alternatives(cs.call.args[0], cs.node):
+        if not (isinstance(val, ast.Call) and call_fname(val) == "int_to_tip"):
+            continue
+        n_conv += 1
+        inst = {}
+        for r, pol in conds:
+            if isinstance(r, ast.Call) and call_fname(r) == "isinstance" and len(r.args) == 2 and isinstance(r.args[1], ast.Name):
+                inst[r.args[1].id] = pol
+        ok = inst.get("int") is True and inst.get("Tip") is False
+        ctx.rep.check(ok, rule, f"{v.qualname}/member-conversion", "int_to_tip is applied exactly to ints that are not Tip members",
+                      f"int_to_tip is applied under {inst or 'an undecomposable condition'}; expected isinstance(tip, int) and not isinstance(tip, Tip): a Tip member (an int as well) would be converted a second time "
+                      "(Tip.T3 = 4 becomes tip 4), or plain numbers would not be converted", where=v.where(cs.call))
+    if n_conv == 0:
+        ctx.rep.refuted(rule, f"{v.qualname}/member-conversion", "tip numbers are never converted with int_to_tip", where=v.where(cs.call))
+
+
 def aggregate_evo(ctx) -> None:
     rule = "C10.aggregate"
     n_sites = 0
@@ -442,6 +479,8 @@ def aggregate_evo(ctx) -> None:
             distinct = validator is not None and _has_strict_order_guard(ctx, validator, "tips")
             ctx.rep.check(distinct, rule, f"{f.qualname}/mask", "plain sum over tips that the validator establishes strictly ascending (duplicate-free)",
                           f"the mask of {name} is a plain sum over the given tips and its validator does not establish that they are distinct: a repeated tip turns into a different tip (tips=[1, 1] -> mask 2)", where=w)
+        elif kind == "bad-init":
+            ctx.rep.refuted(rule, f"{f.qualname}/mask", f"the tip mask `{show(first)[:40]}` does not start from 0: a tip that was not selected is part of every mask", where=w)
         else:
             ctx.rep.inconclusive(rule, f"{f.qualname}/mask", f"cannot classify how the tip mask `{show(first)[:40]}` is folded", where=w)
         # the folded sequence is the validator's tips output
